@@ -1,5 +1,5 @@
 (* allow-axioms:  *)
-From RRE Require Import Base.Sx Base.Float Model.Index Proofs.IndexProofs Proofs.IndexAlphaProofs.
+From RRE Require Import Base.Sx Base.Float Model.Index Proofs.IndexProofs Proofs.IndexAlphaProofs Proofs.IndexBetaProofs.
 Open Scope Z_scope.
 From RRE Require Import Properties.C16.
 Check (C16_rendering_determines_equality : forall a a' b b',
@@ -8,3 +8,7 @@ Check (C16_alpha_filter_is_scan : forall ops, Forall aop_wf ops -> run_alpha alp
 Check (C16_equal_values_share_a_key : forall a b, wfv a -> wfv b -> val_eqb a b = true -> key_eqb a b = true).
 Check (C16_memo_eq_direct : forall calls m, MemoInv m -> run_memo m calls = spec_memo calls).
 Check (C16_memo_eq_direct_from_empty : forall calls, run_memo [] calls = spec_memo calls).
+Check (C16_beta_lookup_is_live_facts : forall ops, run_beta [] ops = spec_beta [] ops).
+Check (C16_conclusion_index_complete : forall ops n fs goal,
+  In (n, fs) (fold_left pstep ops []) -> mem_str (extract_field goal) fs = true ->
+  mem_str n (c_find (fold_left cstep ops cinit) goal) = true).
